@@ -432,30 +432,42 @@ Theorem c02_end_to_end : forall H MD5,
 Proof. exact end_to_end. Qed.
 
 (** the whole command on those bytes: arguments clap accepts, a content root that resolves to
-    where create read: exit status 0 *)
+    where create read: exit status 0 - provided the command's typed loader (X4: [verify_cmd] loads through
+    [Metainfo::from_input] as modelled in Model/Summary.v, with hd / un standing for the url crate) accepts what
+    create wrote outside the four info fields ([extras], exactly characterised by C03's [c03_typed_exact]) and the
+    content size fits 64 bits. That create's announce / nodes / update-url texts re-parse is the url crate's
+    idempotence, which is not modelled; the correspondence run exercises it on every created torrent. *)
 Check end_to_end_cmd : forall H MD5,
   (forall b, length (H b) = 20%nat) -> (forall b, length (MD5 b) = 16%nat) ->
   (forall b, Forall (fun x => x < 256) (MD5 b)) ->
-  forall norm host_canon git_suffix o md5 p name csch vsch fs root src sel t cwd cont base input,
+  forall norm host_canon git_suffix hd un o md5 p name csch vsch fs root src sel t cwd cont base input,
   resolve fs root = Some src -> Forall plain_path sel -> Forall utf8_path sel -> utf8_ok name = true ->
   create_t H MD5 md5 p name csch src sel = Some t ->
   Metainfo.input_ok (input_of t) = true -> Metainfo.opts_ok o = true -> agrees o md5 t ->
   args_ok cont base input = true ->
   env_resolve cwd (content_root cont base input name) = Some root ->
   exists v, Metainfo.build norm host_canon git_suffix o (content_of t) = Some v /\
-            verify_cmd H MD5 vsch fs cwd cont base input (encode v) = Some Success.
+            (extras hd un (encode v) = true -> size_fits t = true ->
+             verify_cmd H MD5 vsch hd un fs cwd cont base input (encode v) = Some Success).
 Theorem c02_end_to_end_cmd : forall H MD5,
   (forall b, length (H b) = 20%nat) -> (forall b, length (MD5 b) = 16%nat) ->
   (forall b, Forall (fun x => x < 256) (MD5 b)) ->
-  forall norm host_canon git_suffix o md5 p name csch vsch fs root src sel t cwd cont base input,
+  forall norm host_canon git_suffix hd un o md5 p name csch vsch fs root src sel t cwd cont base input,
   resolve fs root = Some src -> Forall plain_path sel -> Forall utf8_path sel -> utf8_ok name = true ->
   create_t H MD5 md5 p name csch src sel = Some t ->
   Metainfo.input_ok (input_of t) = true -> Metainfo.opts_ok o = true -> agrees o md5 t ->
   args_ok cont base input = true ->
   env_resolve cwd (content_root cont base input name) = Some root ->
   exists v, Metainfo.build norm host_canon git_suffix o (content_of t) = Some v /\
-            verify_cmd H MD5 vsch fs cwd cont base input (encode v) = Some Success.
+            (extras hd un (encode v) = true -> size_fits t = true ->
+             verify_cmd H MD5 vsch hd un fs cwd cont base input (encode v) = Some Success).
 Proof. exact end_to_end_cmd. Qed.
+Example c02_ex_end_to_end_cmd_hyps :
+  match e_bytes, e_t with
+  | Some tb, Some t => extras (fun h => Some h) (fun u => Some u) tb = true /\ size_fits t = true
+  | _, _ => False
+  end.
+Proof. vm_compute. split; reflexivity. Qed.
 
 (** instances: the digest hypotheses are satisfiable; so are the others, on a command line with
     every option set; the outcome is not vacuous *)
@@ -510,7 +522,7 @@ Example c02_ex_needs_i64_length :
   let t := {| tname := IN; tplen := 4; tpieces := []; tmode := Single (2 ^ 63) None |} in
   Metainfo.input_ok (input_of t) = false /\
   match Metainfo.build idb idb [] (opts_of MetainfoProofs.ex_opts false t) (content_of t) with
-  | Some v => load (encode v) = None
+  | Some v => load_typed (fun h => Some h) (fun u => Some u) (encode v) = None
   | None => False
   end.
 Proof. exact ex_needs_i64_length. Qed.
@@ -527,6 +539,7 @@ Print Assumptions c02_written_bytes_load_back.
 Print Assumptions c02_agrees_defaults.
 Print Assumptions c02_end_to_end.
 Print Assumptions c02_end_to_end_cmd.
+Print Assumptions c02_ex_end_to_end_cmd_hyps.
 Print Assumptions c02_ex_digest_hyps.
 Print Assumptions c02_ex_e2e_hyps.
 Print Assumptions c02_ex_e2e_load_back.
